@@ -142,7 +142,7 @@ func txnProgram(j int, tx TxnSpec, uniq int) []string {
 		s = append(s, peek()...)
 		if tx.Noop > 0 {
 			// the table stays held although this statement changes nothing
-			s = append(s, []string{fmt.Sprintf("UPDATE %s SET n = n + 1 WHERE id = 99999;", t), fmt.Sprintf("DELETE FROM %s WHERE id = 99999;", t), fmt.Sprintf("INSERT INTO %s SELECT id, n FROM %s WHERE id = 99999;", t, t)}[tx.Noop-1])
+			s = append(s, []string{fmt.Sprintf("UPDATE %s SET n = n + 1 WHERE id = 99999;", t), fmt.Sprintf("DELETE FROM %s WHERE id = 99999;", t), fmt.Sprintf("INSERT INTO %s SELECT id, n FROM %s WHERE id = 99999;", t, t), fmt.Sprintf("ALTER TABLE %s SET HEADER TO TRUE;", t)}[tx.Noop-1])
 		}
 		s = append(s, fmt.Sprintf("UPDATE %s SET n = n + 1 WHERE id = %d;", t, tx.Key))
 		s = append(s, sel(2, "")...)
@@ -273,7 +273,7 @@ func genCounterScenario(prop string, seed uint64, tier string, maxProcs int) (*S
 				}
 			}
 			if tx.Kind == "forupd" && r.Bool(0.35) {
-				tx.Noop = r.Pick(1, 2, 3)
+				tx.Noop = r.Pick(1, 2, 3, 4)
 			}
 			if tx.Kind == "inc" && r.Bool(0.4) {
 				tx.Form = r.Pick(1, 2, 3, 4, 5, 6)
